@@ -186,24 +186,39 @@ deriving Repr, DecidableEq, Inhabited
 
 def allZero (bs : Bytes) : Bool := bs.all (· == 0)
 
+/-- the first `n` bytes (or all, if fewer) are zero — a loop with early exit -/
+def zeroPrefix : Nat → Bytes → Bool
+  | 0, _ => true
+  | _, [] => true
+  | n+1, b :: bs => if b != 0 then false else zeroPrefix n bs
+
+/-- `Basic.uN` (Go: `binary.LittleEndian.UintN(data[off:])`) evaluated without walking the whole of
+`data`: same function (`Proofs/Block.lean: uNf_eq_uN`), O(off + n) instead of O(len) -/
+def uNf (n : Nat) (data : Bytes) (off : Nat) : M Nat :=
+  if off > 0 && (data.drop (off - 1)).isEmpty then throw .slice
+  else
+    let d := data.drop off
+    if (d.take n).length < n then throw .index else pure (rd n d)
+
 /-- pd_lsn as repaired (fix 04): `uint64(u32(data,0))<<32 | uint64(u32(data,4))` -/
 def pageLSN (data : Bytes) : M Nat := do
-  let hi ← uN 4 data 0
-  let lo ← uN 4 data 4
+  let hi ← uNf 4 data 0
+  let lo ← uNf 4 data 4
   pure (hi * 2 ^ 32 + lo)
 
 def parseBlockInfo (data : Bytes) (blockNumber : Nat) : M (Option BlockInfo) := do
   if data.length < 8192 then return none
-  let pg ← sliceTo data 8192
-  if allZero pg then
+  -- `for _, b := range data[:PageSize] { if b != 0 { isEmpty = false; break } }` — the slice is in range
+  -- by the guard above; the loop stops at the first non-zero byte
+  if zeroPrefix 8192 data then
     return some ⟨blockNumber, "", 0, 0, 0, 0, 0, 0, 0, 0, 0, true⟩
   let lsn ← pageLSN data
-  let checksum ← uN 2 data 8
-  let flags ← uN 2 data 10
-  let lower ← uN 2 data 12
-  let upper ← uN 2 data 14
-  let special ← uN 2 data 16
-  let psv ← uN 2 data 18
+  let checksum ← uNf 2 data 8
+  let flags ← uNf 2 data 10
+  let lower ← uNf 2 data 12
+  let upper ← uNf 2 data 14
+  let special ← uNf 2 data 16
+  let psv ← uNf 2 data 18
   let itemCount := if lower ≥ 24 then (lower - 24) / 4 else 0
   let freeSpace := if upper > lower then upper - lower else 0
   return some ⟨blockNumber, formatLSN lsn, checksum, flags, lower, upper, special,
@@ -215,7 +230,8 @@ def parseBlockInfo (data : Bytes) (blockNumber : Nat) : M (Option BlockInfo) := 
 along (a cursor), so that a step costs O(PS); `takeM rest n` is the slice `rest[0:n]` with its bounds
 check (`Proofs/Block.lean: takeM_eq_slice` ties it to the index form). -/
 def takeM (rest : Bytes) (n : Nat) : M Bytes :=
-  if (rest.take n).length < n then throw .slice else pure (rest.take n)
+  let t := rest.take n
+  if t.length < n then throw .slice else pure t
 
 /-- `for i := 0; i < len(data)/PageSize; i++ { block := data[i*PS : i*PS+PS]; ParseBlockInfo(block, uint32(startBlock+i)) }`,
 `n` iterations left, next index `i`, `rest = data[i*PS:]` -/
